@@ -4,5 +4,6 @@ Ops2 <- NoOps
 InjectBytes <- InjFew
 Depths <- DepthsFew
 AllowInPlace = FALSE
+SeedsUsed <- ShortSeeds
 INVARIANTS TypeOK ErrGivesOriginalInv
 CHECK_DEADLOCK FALSE
